@@ -269,7 +269,7 @@ PROPS = {
         rule=("case = schedule decoded from fuzzer input. Non-trivial = >=2 outstanding calls and (out-of-order or duplicate replies, or time passing / cancel while replies are written but unread, or peer close with calls outstanding); distinct = FNV-1a of the log."),
         phases=[P(kind="fuzz", bin="c17_pending", runs_quick=100000, runs_thorough=1600000, workers_quick=8, workers_thorough=16, max_len=512, rss=4000, timeout=60),
                 # threads clause: sampling stress of one connection shared by 2-4 threads (real time; see level_note)
-                P(kind="fuzz", bin="c17_threads", race=True, rounds_thorough=1, env={"DBUS_DISABLE_MEM_POOLS": "1"}, runs_quick=4200, runs_thorough=67200, workers_quick=14, workers_thorough=6, max_len=256, rss=4000, timeout=60, detect_leaks=0)],
+                P(kind="fuzz", bin="c17_threads", race=True, rounds_thorough=1, env={"DBUS_DISABLE_MEM_POOLS": "1"}, runs_quick=2400, runs_thorough=67200, workers_quick=8, workers_thorough=6, max_len=256, rss=4000, timeout=60, detect_leaks=0)],
         floor_quick=800, floor_thorough=4000,
     ),
     "C19": P(
